@@ -302,7 +302,7 @@ static PTree *tree_new(void)
     else if (MODE == 4) t = p_tree_new_full((PTreeType)T, cmp_data, &cookie, NULL, value_destroy);
     else if (MODE == 1) t = p_tree_new((PTreeType)T, cmp_plain);
     else t = p_tree_new_with_data((PTreeType)T, cmp_data, &cookie);
-    if (!t) { fprintf(stderr, "p_tree_new failed\n"); exit(2); }
+    if (!t) { viol("C12", "new-failed", "the tree constructor returned NULL"); exit(1); }
     return t;
 }
 
@@ -484,7 +484,10 @@ int main(int argc, char **argv)
         hist_text(h, n, cur_hist, sizeof cur_hist);
         hout_progress("sig=%s/readonly tree_bfs %d %d %d --replay %s", TN[T], T, K, MODE, cur_hist);
         canon(t, cb, sizeof cb);
-        if (strcmp(cb, st[s].canon)) { fprintf(stderr, "canon-on-replay mismatch: %s vs %s\n", cb, st[s].canon); return 2; }
+        if (strcmp(cb, st[s].canon)) {      /* never seen on a correct tree: the shape is a function of the operations applied */
+            viol("C12", "state-not-determined-by-history", "the same operation sequence run a second time gave the shape %s instead of %s", cb, st[s].canon);
+            return 1;
+        }
         canon_replay_checks++;
         fail_flag = 0;
         readonly_ops(t, &ref);
